@@ -327,3 +327,30 @@ func SimDumpDb(eng *RedisEmu, index int) map[string]SimObj {
 	}
 	return out
 }
+
+// SimClientIdByAddr returns the id of the registered client whose remote
+// address is addr, or 0.
+func SimClientIdByAddr(addr string) int64 {
+	clientsMu.Lock()
+	defer clientsMu.Unlock()
+	for id, cs := range clients {
+		if cc, ok := cs.client.(*clientCxn); ok && cc.cxn.RemoteAddr().String() == addr {
+			return id
+		}
+	}
+	return 0
+}
+
+// SimForceUnblockAll posts an unblock message to every registered client
+// without going through the capture protocol. Teardown only: it lets commands
+// that block forever end so that a finished simulated run leaks no goroutine.
+func SimForceUnblockAll() {
+	clientsMu.Lock()
+	defer clientsMu.Unlock()
+	for _, cs := range clients {
+		select {
+		case cs.unblockCh <- unblockReason{}:
+		default:
+		}
+	}
+}
